@@ -487,6 +487,7 @@ Inductive endk :=
 | EPartial           (* client closed inside a request *)
 | EGaveUp            (* the client waited for a reply that never came, then closed *)
 | EBadRequest | EBadReply | EStall
+| EBackendClosed     (* the backend had closed its connection after an earlier reply: nothing more can be relayed *)
 | EFuel.             (* out of fuel (excluded: drain_fuel_suffices) *)
 
 Record st := mkSt {
@@ -496,7 +497,9 @@ Record st := mkSt {
   s_replies : list (list bytes);    (* backend's reply (as writes) to the next request it receives *)
   s_recvd : N;                      (* replies written to (and parsed by) the client *)
   s_fwd : list sem_req;             (* requests the backend received, newest first *)
-  s_del : list sem_resp }.          (* replies the client received, newest first *)
+  s_del : list sem_resp;            (* replies the client received, newest first *)
+  s_closes : list bool;             (* per reply still to come: the backend closes its connection after it *)
+  s_bclosed : bool }.               (* the backend has closed its connection *)
 
 Definition DEFAULT_REPLY : list bytes :=
   [[72;84;84;80;47;49;46;49;32;50;48;48;32;79;75;13;10;67;111;110;116;101;110;116;45;76;101;110;103;116;104;58;32;48;13;10;13;10]%N].
@@ -504,7 +507,7 @@ Definition DEFAULT_REPLY : list bytes :=
 Definition is_head (m : sem_req) : bool := eqb_b (r_method m) S_HEAD.
 
 Definition set_buf (s : st) (b : bytes) : st :=
-  mkSt b (s_bbuf s) (s_bq s) (s_replies s) (s_recvd s) (s_fwd s) (s_del s).
+  mkSt b (s_bbuf s) (s_bq s) (s_replies s) (s_recvd s) (s_fwd s) (s_del s) (s_closes s) (s_bclosed s).
 
 (* the for-loop of Handle as long as the reader's buffer holds complete requests:
    ReadRequest, req.Write to the backend (+ event), ReadResponse, resp.Write to the client *)
@@ -516,14 +519,18 @@ Fixpoint drain (fuel : nat) (s : st) : st * option endk :=
       | QIncomplete => (s, None)
       | QBad => (s, Some EBadRequest)
       | QComplete n m =>
+          if s_bclosed s then (s, Some EBackendClosed)    (* req.Write / ReadResponse on the dead backend connection: Handle returns;
+                                                             whatever the client has been sent before stays sent *)
+          else
           let reply := match s_replies s with [] => DEFAULT_REPLY | x :: _ => x end in
           let s1 := mkSt (skipn n (s_buf s)) (s_bbuf s) (s_bq s ++ reply) (tl (s_replies s))
-                         (s_recvd s) (reser_req m :: s_fwd s) (s_del s) in
+                         (s_recvd s) (reser_req m :: s_fwd s) (s_del s) (s_closes s) false in
           match read_reply (is_head m) (s_bbuf s1) (s_bq s1) with
           | RBad => (s1, Some EBadReply)
           | RStall => (s1, Some EStall)
           | RGot p lft rest =>
-              drain f (mkSt (s_buf s1) lft rest (s_replies s1) (s_recvd s1 + 1)%N (s_fwd s1) (reser_resp p :: s_del s1))
+              drain f (mkSt (s_buf s1) lft rest (s_replies s1) (s_recvd s1 + 1)%N (s_fwd s1) (reser_resp p :: s_del s1)
+                            (tl (s_closes s1)) (match s_closes s1 with c :: _ => c | [] => false end))
           end
       end
   end.
@@ -540,7 +547,8 @@ Fixpoint run (its : list citem) (s : st) : st * endk :=
       end
   end.
 
-Definition st0 (replies : list (list bytes)) : st := mkSt [] [] [] replies 0 [] [].
+Definition st0c (replies : list (list bytes)) (closes : list bool) : st := mkSt [] [] [] replies 0 [] [] closes false.
+Definition st0 (replies : list (list bytes)) : st := st0c replies [].
 
 (* req.Write streams: once the header block of a request is complete it is written to the
    backend and the body follows as it arrives.  For a request that completes this is the
@@ -627,13 +635,25 @@ Definition raw_nothing : raw_out := mkRaw 0 [] [] 0.
 
 Definition first_of (l : list bytes) : list bytes := match l with x :: _ => [x] | [] => [] end.
 
+(* a datagram service does ONE Read for the datagram.  On a port shared with a detector
+   service the server has peeked (one Read of at most 1024 bytes) and the peek wrapper
+   serves its buffer first: that one Read returns at most the 1024 peeked bytes *)
+Fixpoint has_peek (k : conn_kind) : bool :=
+  match k with
+  | KPeek _ => true
+  | KTimeout i => has_peek i
+  | _ => false
+  end.
+Definition PEEK : nat := 1024.
+Definition dgram_read (k : conn_kind) (d : bytes) : bytes := if has_peek k then firstn PEEK d else d.
+
 (* copy.  Stream: io.Copy both ways (the backend sees end of stream when the client is
    done), one event when Handle returns.  Datagram: the datagram, then one reply. *)
 Definition copy_model (k : conn_kind) (client_segs backend_segs : list bytes) : raw_out :=
   match type_switch k with
   | BDefault => raw_nothing
   | BTcp => mkRaw 1 client_segs backend_segs 1
-  | BUdp => mkRaw 1 [concat client_segs] (first_of backend_segs) 1
+  | BUdp => mkRaw 1 [dgram_read k (concat client_segs)] (first_of backend_segs) 1
   end.
 
 (* DNS over a stream (RFC 1035 4.2.2): a message is preceded by its length in two bytes.
@@ -673,7 +693,7 @@ Definition dns_model (k : conn_kind) (client_segs : list bytes) (parses : bool)
                      (backend_segs : list bytes) : raw_out :=
   match type_switch k with
   | BDefault => raw_nothing
-  | BUdp => mkRaw 1 [concat client_segs] (first_of backend_segs) 1
+  | BUdp => mkRaw 1 [dgram_read k (concat client_segs)] (first_of backend_segs) 1
   | BTcp =>
       match read_msg client_segs with
       | None => raw_nothing
